@@ -29,7 +29,7 @@ Theorem C05_cancel_order_post : forall cx oid s s' o payer, cancel_order cx oid 
                         models s' = models s
       end
   end.
-Proof. exact cancel_order_post. Qed.
+Proof. first [exact cancel_order_post | apply cancel_order_post]. Qed.
 Print Assumptions C05_cancel_order_post.
 
 Theorem C05_cancel_msg_post : forall cx s c p oid s' d o, step cx s (OCancel c p oid) = (s', OutTx COk d) -> orders s !! oid = Some o ->
@@ -39,10 +39,10 @@ Theorem C05_cancel_msg_post : forall cx s c p oid s' d o, step cx s (OCancel c p
   pledges s' = pledges s /\ workers s' = workers s /\ debts s' = debts s /\
   exists payer, pay_addr s (if String.eqb (o_paydid o) "" then o_owner o else o_paydid o) = Some payer /\
     (payer <> macc ORDER -> balance s' payer = balance s payer + o_amount o).
-Proof. exact cancel_msg_post. Qed.
+Proof. first [exact cancel_msg_post | apply cancel_msg_post]. Qed.
 Print Assumptions C05_cancel_msg_post.
 
 Theorem C05_timeout_pending_cancels_exact : forall cx oid s s' o, handle_timeout_order cx oid s = Ok tt s' -> orders s !! oid = Some o ->
   o_status o = OrderPending -> cancel_order cx oid s = Ok tt s' \/ (cancel_order cx oid s = Err "RefundOrder" s /\ s' = s).
-Proof. exact timeout_pending_cancels_exact. Qed.
+Proof. first [exact timeout_pending_cancels_exact | apply timeout_pending_cancels_exact]. Qed.
 Print Assumptions C05_timeout_pending_cancels_exact.
